@@ -36,7 +36,7 @@ var payloadKinds = []struct {
 	}},
 	{"non-ascii", func(r *rand.Rand, n int) string {
 		// the last character matters: its final UTF-8 byte may look like a blank to byte-wise code (à = C3 A0, Å = C3 85, х = D1 85)
-		return fmt.Sprintf(" #%d ünïcödé ✓ ", n) + fw.Pick(r, []string{"日本", "voilà", "Å", "в цех", "é", "😀", "città", "\u00a0x", "x\u0085y", "ẅ", "꠰"})
+		return fmt.Sprintf(" #%d ünïcödé ✓ ", n) + fw.Pick(r, []string{"日本", "voilà", "Å", "в цех", "é", "😀", "città", "\u00a0x", "x\u0085y", "ẅ", "꠰", "— em dash", "“quoted” text", "wait… more", "• bullet", "a‐b", "\u2003wide"})
 	}},
 	{"empty", func(r *rand.Rand, n int) string { return "" }},
 	{"spaces-only", func(r *rand.Rand, n int) string { return fw.Pick(r, []string{" ", "   "}) }},
